@@ -161,6 +161,11 @@ def corpus():
     for layout in LAYOUTS:
         for enc in ("utf-8", "utf-8-sig", "utf-16"):                                   # A14 (fixed): BOM + json
             yield {"op": "open", "data": d, "layout": layout, "style": "exp", "enc": enc, "newline": "\r\n", "iei": True, "dup": "rename", "negzero": True}
+    # seeded-change regression: a quote ending a non-final line of a point mark / an interval text
+    d2 = {"lo": 0.0, "hi": 5.0, "tiers": [{"k": "P", "name": "p", "es": [[1.0, 'say "ah"\nrising'], [2.0, '"\n"']], "lo": 0.0, "hi": 5.0},
+                                        {"k": "I", "name": "i", "es": [[1.0, 2.0, 'a"\nb']], "lo": 0.0, "hi": 5.0}]}
+    for layout in LAYOUTS:
+        yield {"op": "open", "data": d2, "layout": layout, "style": "plain", "enc": "utf-8", "newline": "\n", "iei": True, "dup": "error", "negzero": False}
 
 
 def gen(rnd, tier):
